@@ -37,6 +37,8 @@ fn run_case(x: &Sx) -> Sx {
         "tmp" => extsort::run_tmp(&l[1..]),
         "xsortrec" => extsort::run_xsortrec(&l[1..]),
         "xsort2" => extsort::run_xsort2(&l[1..]),
+        "xsortquota" => extsort::run_xsortquota(&l[1..]),
+        "wrfail" => text::run_wrfail(&l[1..]),
         k => Sx::L(vec![a("glue-error"), a(format!("unknown-kind-{}", k))]),
     }
 }
